@@ -2,11 +2,18 @@ import DuneVerif.Proofs.C04H
 /-!
 C04 — RemoteIndices equals the pairwise intersection of the published index sets.
 
-Property theorems about the model `DuneVerif/Model/C04.lean` (which describes remoteindices.hh after
-fixes/C04_*.patch), for every process count `P ≥ 1`, every decomposition without repeated global indices
-(`System.Strict`), `ignorePublic` and `includeSelf` arbitrary, one or two index sets on each rank independently.
-MPI itself is trusted (reliable, pairwise FIFO): the theorems speak about which messages a rank processes and
-in which order.
+Property theorems about the two-layer model of remoteindices.hh (after fixes/C04_*.patch):
+
+* the per-rank layer `DuneVerif/Model/C04.lean` (`DV.C04`): merge-joins, `unpackCreateRemote`, `buildRemote` of one rank
+  given the ranks whose original messages it processes, `RIState`;
+* the faithful layer `DuneVerif/Model/C04F.lean` (`DV.C04.F`, what the driver runs): buffer cursor and entry counts,
+  the ring as a state machine over all ranks, the neighbour exchange at network level, the `World` of index set
+  objects / `RemoteIndices` objects with its events; its decisions and rank arithmetic are the definitions
+  `DV.C04.Gen.*` regenerated from the source on every run.
+
+All theorems are for every process count `P ≥ 1`, every decomposition (`System.Strict` = no repeated global indices,
+where needed), `ignorePublic` and `includeSelf` arbitrary, one or two index sets on each rank independently, every
+arrival order, every history.  MPI itself is trusted (reliable, pairwise FIFO).
 
 Vocabulary (Model/C04.lean): `spec A B` = one entry per pair of `A` whose global index occurs in `B`, in `A`'s
 order, carrying `B`'s attribute; `srcPairs/dstPairs ign` = the published source / (effective) target pairs;
